@@ -2,7 +2,7 @@ import vlib
 
 PROP = dict(
     id="C01",
-    corr=["Model/FsmCorr.vo", "Model/C01Corr.vo", "Model/C03Corr.vo", "Model/C01Validator.vo"],
+    corr=["Model/FsmCorr.vo", "Model/C01Corr.vo", "Model/C03Corr.vo", "Model/C01Validator.vo", "Model/C01Decoder.vo"],
     design_ref="DESIGN.md §6 C01",
     technique="Coq: invoice-checked invariant + validate-before-pay ghost, carried by a ghost-threaded engine rule through all histories with crashes; reflective table check; step-level vm_compute correspondence against the real SwapService/FSM; monitor on observed effect traces",
     level_text="Machine-checked for every state table passing a reflective check (decided on the four generated tables each run), every invoice decoder, every history the environment can produce (requests only create swaps, confirmation callbacks only for a watch registered in the current process, any environment answers, crashes after any effect + restarts from the last durable record): every RebalancePayment pays exactly the invoice of the peer's opening_tx_broadcasted message of the durable record, of a Bitcoin or protocol-7 Liquid swap, whose invoice has amount = claim amount*1000 (mod 2^64), final CLTV <= 504 / 0..29 and whose hash is the bound ClaimPaymentHash, and is preceded in the same action by ValidateTx(both pubkeys, that hash, negotiated on-chain amount, CSV 1008/10080, peer's blinding key, delivered OpeningTxHex) = true; every confirmation watch is for the announced txid/vout; every record persisted in a paying state satisfies the invoice invariant. Non-vacuity: an observed paying history satisfies the predicate, perturbed traces are rejected.",
@@ -30,6 +30,19 @@ def run(ctx):
     ctx.absorb(res, "fsm", signature=sig,
                describe=lambda c: "a claim payment was made without the invoice / validation / confirmation conditions of C01 (role %s, chain %s)" % (c.get("role"), c.get("chain")))
     run_validators(ctx, 150 if ctx.quick else 3000, 24 if ctx.quick else 120)
+    run_decoder(ctx, 150 if ctx.quick else 3000)
+
+
+def run_decoder(ctx, n, outdir=None):
+    """decoder side: the REAL DecodePayreq of the CLN and LND adapters hands over exactly what the node decoded"""
+    d = ctx.harness("decoder", outdir=outdir or (ctx.work + "/decoder"), args=["-n", n])
+    if d is None:
+        return
+    res = vlib.eval_cases(d)
+    ctx.rules.append("decoder family: the real clightning / lnd DecodePayreq over a fake node answering payment hash, amount in msat (whole and fractional satoshi, +-1 msat around a whole number) and final CLTV delta; monitor: the returned triple is the node's")
+    ctx.absorb(res, "decoder", signature=lambda c: "decoder:%s:returned-amount-hash-or-cltv-differs-from-what-the-node-decoded" % c.get("backend", "?"),
+               mismatch_is_violation=True,
+               describe=lambda c: "DecodePayreq of the %s adapter returned %s for an invoice the node decoded as %s: the taker's amount / hash / CLTV checks run on wrong numbers" % (c.get("backend"), c.get("returned"), c.get("node_decoded")))
 
 
 def run_validators(ctx, n, nl, outdir=None):
